@@ -121,7 +121,7 @@ class Folder:
         if not isinstance(f, Closure):
             raise AnalysisError('%s.%s is not a function' % (self.name, name))
         env = {}
-        self.call_closure(f, list(args), kwargs, capture=env)
+        env['$result'] = self.call_closure(f, list(args), kwargs, capture=env)
         return env
 
     # ------------------------------------------------------------------
